@@ -526,7 +526,7 @@ func main() {
 	root := rng.New(a.Seed)
 	rep := emit.NewReport("C17", a.Seed, a.Tier)
 	rep.Rule = "a case = one writer + ONE searcher on a fresh directory, pinned zone: 5-21 Write calls (same second / next second / gaps / local midnight / day jumps / older seconds / ts 0 / empty batches; 0-3 items with unicode, long, blank, empty, numeric-looking names and boundary field values) interleaved with 3-25 queries (both kinds, begin times around written seconds, mostly non-decreasing so the cached position is used); classes manyrolls (>= 11 files in a day), tiny-retention (MaxFileAmount 1-3), rolls, single-file, cut (truncation sweep of last data + idx file, fresh searcher per cut, 4 queries). Non-trivial = at least one file roll AND at least one query returning items AND at least one query answered from the cached position (normal cases) / at least one cut strictly inside a line or an index entry (cut cases); distinct by full input."
-	nCorr := a.Pick(a.N, 60, 1500)
+	nCorr := a.Pick(a.N, 52, 1500)
 	nMon := a.Pick(a.Mon, 1000, 25000)
 	nCutCorr := a.Pick(a.N/12, 4, 20)
 	nCutMon := a.Pick(a.Mon/20, 50, 400)
